@@ -786,6 +786,51 @@ fn main() {
             w.rec.end_case(c, true);
         }
 
+        // ================= D25: ONE leader-signed shred with the other last-slice marker derails the repair for good =================
+        // (Lean witness `AgModel.Repair.derail_by_last_marker`; `repair_completes` needs `Admissible` for exactly this reason)
+        {
+            let n = rng.range(2, max_n.max(2)) as usize;
+            let slot = rng.range(2, 30);
+            w.begin("repair-other-marker-derails");
+            let specs = honest_specs(&mut rng, n, slot, 1);
+            let built: Vec<Built> = specs.iter().map(|s| w.build(slot, s)).collect();
+            let blk = w.declare(slot, built);
+            // the Byzantine leader signed a non-last slice j (same content, hence same slice root) also with the last marker
+            let j = rng.below(n as u64 - 1) as usize;
+            let mut early = specs[j].clone();
+            early.is_last = true;
+            let early_b = w.build(slot, &early);
+            w.repair_block(slot, blk.hid, &blk.hash);
+            let mut evil_sent = false;
+            let mut guard = 0;
+            loop {
+                guard += 1;
+                let out = w.outstanding();
+                if out.is_empty() || guard > 4000 { break; }
+                // one hostile peer answers the first shred request of slice j; an honest peer answers everything else
+                let evil_req = if evil_sent { None } else { out.iter().find(|r| matches!(r, RepairRequestType::Shred(_, i, _) if si_usize(*i) == j)).cloned() };
+                if let Some(req) = evil_req {
+                    let jx = match &req { RepairRequestType::Shred(_, _, jx) => jx.inner(), _ => 0 };
+                    let shred = early_b.shreds[jx].clone().into_shred();
+                    let op = w.shred_resp_op(&req, &shred);
+                    evil_sent = true;
+                    if !w.respond(op, RepairResponse::Shred(req.clone(), shred), "other-last-marker") { break; }
+                    continue;
+                }
+                let req = out[0].clone();
+                let (op, resp) = correct_response(&w, &blk, &req);
+                if !w.respond(op, resp, "correct") { break; }
+            }
+            let res = w.q_blk(slot, blk.hid, &blk.hash);
+            let outs = w.outstanding().len();
+            if res.is_none() { w.rec.count("derailed-by-other-last-marker"); }
+            w.rec.oracle(res.is_some(), "repair-derailed-by-signed-variant", || {
+                format!("one leader-signed shred of slice {j} carrying the other last-slice marker (same slice root) was accepted for a {n}-slice block; every request was then answered correctly by an honest peer while outstanding; now {outs} requests are outstanding and the block is not stored")
+            });
+            let c = w.class;
+            w.rec.end_case(c, true);
+        }
+
         // ================= responder =================
         for variant in 0..3 {
             let n = rng.range(1, max_n + 1) as usize;
